@@ -728,6 +728,19 @@ func userMethods(r *Rng, st *Struct) {
 	if len(priv) == 0 {
 		return
 	}
+	if st.Ann.Json && st.ValueRuns() && r.Intn(2) == 0 {
+		// the user wrote ONE of the two JSON methods by hand: gombok must skip exactly that one and still generate the other
+		// (seed C15-10 of round 5: the guard in front of the generated UnmarshalJSON looked for a user-written MarshalJSON)
+		if r.Intn(2) == 0 {
+			fmt.Fprintf(&sb, "func (r %s) MarshalJSON() ([]byte, error) { return zzJSONMarshal(r.AsMutable()) }\n", recv)
+			st.UserT = append(st.UserT, "MarshalJSON")
+		} else {
+			fmt.Fprintf(&sb, "func (r *%s) UnmarshalJSON(b []byte) error { m := r.AsMutable(); if err := zzJSONUnmarshal(b, &m); err != nil { return err }; *r = m.AsImmutable(); return nil }\n", recv)
+			st.UserT = append(st.UserT, "UnmarshalJSON")
+		}
+		st.UserSrc = sb.String()
+		return
+	}
 	i := priv[r.Intn(len(priv))]
 	f := st.Fields[i]
 	u := PublicName(f.Name)
